@@ -7,13 +7,20 @@ F == IF Palette = "dyadic" THEN { Zero, Q(1,4), Half, Q(3,4), One }
      ELSE { Q(1,10), Q(3,10), Q(45,100), Q(7,10), Q(95,100) }
 Heights == IF Palette = "dyadic" THEN { One, Half, Q(3,4) } ELSE { One, Q(3,10), Q(7,10) }
 Fracs == { Q(1,64), Q(1,8), Q(1,4), Q(9,32), Q(3,8), Q(1,2), Q(5,8), Q(23,32), Q(3,4), Q(7,8), Q(63,64), Q(1,32), Q(31,32) }
-Params(k) == IF k = "Sigmoid" THEN { <<i, s>> : i \in F, s \in {I(-4), I(-1), One, I(4), Q(1,4)} }
-             ELSE IF k \in {"SShape", "ZShape"} THEN { <<s, e>> \in F \X F : Lt(s, e) }
-             ELSE { <<s, e>> \in F \X F : s # e }
+\* parameters that are not degenerate but lie within the library's comparison tolerance (0.001) of a degenerate value:
+\* slopes next to 0, edges narrower than the tolerance
+Gentle == IF Palette = "dyadic" THEN { Q(1,1024), Q(-1,2048) } ELSE { Q(8,10000), Q(-5,10000) }
+Narrow == IF Palette = "dyadic" THEN { <<Zero, Q(1,1024)>>, <<One, Add(One, Q(1,1024))>> }
+          ELSE { <<Q(3,10), Q(3008,10000)>>, <<Q(7,10), Q(7005,10000)>> }
+Params(k) == IF k = "Sigmoid" THEN { <<i, s>> : i \in F, s \in {I(-4), I(-1), One, I(4), Q(1,4)} \cup Gentle }
+             ELSE IF k \in {"SShape", "ZShape"} THEN { <<s, e>> \in F \X F : Lt(s, e) } \cup Narrow
+             ELSE { <<s, e>> \in F \X F : s # e } \cup Narrow \cup { <<p[2], p[1]>> : p \in Narrow }
 TermSet == UNION { { [k |-> k, p |-> p, h |-> h] : p \in Params(k), h \in Heights } : k \in MonotonicKinds }
 VARIABLES t, y
 vars == <<t, y>>
-Init == t \in TermSet /\ y \in { Mul(t.h, f) : f \in Fracs }
+\* (the narrow edges carry denominators of 2^10: on them the degrees are the quarters, to stay inside TLC's 32-bit integers)
+FracsOf(tt) == IF tt.k # "Sigmoid" /\ (<<tt.p[1], tt.p[2]>> \in Narrow \/ <<tt.p[2], tt.p[1]>> \in Narrow) THEN { Q(1,4), Half, Q(3,4) } ELSE Fracs
+Init == t \in TermSet /\ y \in { Mul(t.h, f) : f \in FracsOf(t) }
 Next == UNCHANGED vars
 Spec == Init /\ [][Next]_vars
 TEnv(tt, yy) == [x |-> KQ(yy), p |-> [i \in 1..Len(tt.p) |-> KQ(tt.p[i])], h |-> KQ(tt.h)]
@@ -21,7 +28,7 @@ Z(tt, yy) == Tsukamoto(tt, yy, TEnv(tt, yy)).v
 \* where the inverse is rational the relation holds exactly on the model
 InverseExact == IsQ(Z(t, y)) => (IsFin(QV(Z(t, y))) /\ MuX(t, QV(Z(t, y))) = y)
 \* z is monotone in y in the direction of the term
-MonotoneZ == \A f \in Fracs : LET y2 == Mul(t.h, f) IN
+MonotoneZ == \A f \in FracsOf(t) : LET y2 == Mul(t.h, f) IN
                (Lt(y, y2) /\ IsQ(Z(t, y)) /\ IsQ(Z(t, y2))) =>
                   IF Direction(t) = 1 THEN Lt(QV(Z(t, y)), QV(Z(t, y2))) ELSE Gt(QV(Z(t, y)), QV(Z(t, y2)))
 EmitInv == Emit => PrintT(ToJson([k |-> t.k, p |-> t.p, h |-> t.h, y |-> y, piece |-> Tsukamoto(t, y, TEnv(t, y)).piece,
